@@ -226,6 +226,21 @@ pub struct Blackout {
     /// or submitted in [from_ms, until_ms)
     pub from_ms: Option<u64>,
     pub until_ms: Option<u64>,
+    /// restrict to these PDU kinds (bit = Kind as u32); 0 = every datagram.
+    /// Models a peer that never sends (or a link that never passes) a certain kind of PDU.
+    #[serde(default)]
+    pub kind_mask: u32,
+}
+impl Blackout {
+    pub fn from_ordinal(from: usize, to: usize, ord: u32) -> Self {
+        Blackout { from, to, from_ordinal: Some(ord), from_ms: None, until_ms: None, kind_mask: 0 }
+    }
+    pub fn of_kinds(from: usize, to: usize, kinds: &[Kind]) -> Self {
+        Blackout { from, to, from_ordinal: Some(0), from_ms: None, until_ms: None, kind_mask: kinds.iter().fold(0, |m, k| m | (1 << (*k as u32))) }
+    }
+    pub fn window(from: usize, to: usize, a: u64, z: Option<u64>) -> Self {
+        Blackout { from, to, from_ordinal: None, from_ms: Some(a), until_ms: z, kind_mask: 0 }
+    }
 }
 
 #[derive(Clone, Debug, Serialize, Deserialize, PartialEq, Eq, Hash)]
@@ -785,7 +800,8 @@ async fn run_async(sc: &Scenario, roots: Vec<PathBuf>) -> Trace {
                                     (Some(a), None) => t >= a,
                                     _ => false,
                                 };
-                                if by_ord || by_time {
+                                let kind_ok = b.kind_mask == 0 || (b.kind_mask & (1 << (kind_of(&pdu) as u32))) != 0;
+                                if (by_ord || by_time) && kind_ok {
                                     fate = Fate::Dropped("blackout");
                                 }
                             }
